@@ -46,7 +46,7 @@ def oracle_sift(case, rec):
     kw = dict(imf_opts=dict(case['opts']), envelope_opts=eo, extrema_opts=xo)
     rec.cls('dtype=' + case['sig'].get('dtype', 'f8'))
     try:
-        full = np.asarray(emd.sift.sift(x.copy(), **kw))
+        full = np.asarray(emd.sift.sift(gens.arg(x), **kw))
     except emd.support.EMDSiftCovergeError:
         raise Discard('uncapped sift does not converge')
     K = full.shape[1]
@@ -57,7 +57,7 @@ def oracle_sift(case, rec):
         caps = [k for k in caps if k != K + 2]
     for k in caps:
         try:
-            capped = np.asarray(emd.sift.sift(x.copy(), max_imfs=k, **kw))
+            capped = np.asarray(emd.sift.sift(gens.arg(x), max_imfs=k, **kw))
         except Exception as e:
             raise Violation('C03/sift/capped-raises/%s/%s' % (type(e).__name__, 'k<=K' if k <= K else 'k>K'), 'k=%d K=%d %r' % (k, K, e))
         cls = 'below' if k < K else 'equal' if k == K else 'above'
